@@ -100,6 +100,7 @@ type Conn struct {
 	RecvTimes  []time.Duration // completion times of deliveries
 	ownerTask  string          // task that made the first write (the FSM that owns the conn)
 	OpenCBs    int             // OnOpenMessage callbacks attributed to this connection
+	CapsCalls  int             // GetCapabilities callbacks attributed to this connection
 	OpenSentAt time.Duration
 	OpenSeq    uint64
 }
@@ -648,14 +649,24 @@ func (n *Net) noteCaps(task string) {
 	n.mu.Unlock()
 }
 
-// noteWrite is called for every write attempt / close by a task.
+// noteWrite is called for every write attempt / close by a task. The
+// GetCapabilities calls the task made since it last touched a connection are
+// attributed to this connection: a connection gets at most one, and exactly one
+// must precede its OPEN.
 func (n *Net) noteWrite(c *Conn, task string, isOpen bool) {
 	n.mu.Lock()
 	k := n.capsPending[task]
 	n.capsPending[task] = 0
+	c.CapsCalls += k
+	total := c.CapsCalls
 	n.mu.Unlock()
-	if isOpen && n.CapsOracle && k != 1 {
-		n.w.Violate(n.w.Prop+"/callbacks/getcapabilities-count", "OPEN written on %s by task %s after %d GetCapabilities calls by that task (want exactly 1)", c, task, k)
+	if !n.CapsOracle {
+		return
+	}
+	if isOpen && total != 1 {
+		n.w.Violate(n.w.Prop+"/callbacks/getcapabilities-count", "OPEN written on %s by task %s after %d GetCapabilities calls for that connection (want exactly 1)", c, task, total)
+	} else if total > 1 {
+		n.w.Violate(n.w.Prop+"/callbacks/getcapabilities-count", "GetCapabilities was invoked %d times for connection %s (task %s)", total, c, task)
 	}
 }
 
